@@ -3,6 +3,7 @@ package blockstore
 import (
 	"context"
 	"fmt"
+	"io"
 	"os"
 
 	blocks "github.com/ipfs/go-block-format"
@@ -221,6 +222,9 @@ func (b *ReadWrite) PutMany(ctx context.Context, blks []blocks.Block) error {
 
 		n := uint64(b.dataWriter.Position())
 		if err := util.LdWrite(b.dataWriter, c.Bytes(), bl.RawData()); err != nil {
+			// Rewind over whatever part of the section got written, so that the next
+			// section overwrites it instead of landing after garbage.
+			b.dataWriter.Seek(int64(n), io.SeekStart)
 			return err
 		}
 		b.idx.InsertNoReplace(c, n)
